@@ -509,6 +509,9 @@ impl SmartPtrSerializer {
     }
 }
 
+/// Upper bound on the number of elements reserved up front from an untrusted length prefix.
+pub(crate) const MAX_PREALLOCATED_ELEMENTS: usize = 4096;
+
 // Implementations for basic types to make them SerializableType
 impl SerializableType for i32 {
     fn serialize<O: DataOutput>(&self, output: &mut O) -> Result<()> {
@@ -551,7 +554,9 @@ impl<T: SerializableType> SerializableType for Vec<T> {
     
     fn deserialize<I: DataInput>(input: &mut I) -> Result<Self> {
         let len = input.read_u32()? as usize;
-        let mut vec = Vec::with_capacity(len);
+        // The length prefix is untrusted: reserve cautiously and let the vector grow as
+        // elements are actually decoded (a truncated input fails long before `len`).
+        let mut vec = Vec::with_capacity(len.min(MAX_PREALLOCATED_ELEMENTS));
         for _ in 0..len {
             vec.push(T::deserialize(input)?);
         }
